@@ -5,6 +5,7 @@ set -e
 cd "$(dirname "$0")"
 mkdir -p lean/H2/Gen evidence work
 /venv/bin/python tools/gen_tables.py lean/H2/Gen/Tables.lean work/gen_summary.json
-/venv/bin/python tools/py2lean.py lean/H2/Gen/Windows.lean
+/venv/bin/python tools/py2lean.py lean/H2/Gen/WindowsRaw.lean
 PROPS=$(/venv/bin/python -c "import json; print(' '.join(sorted(v['module'] for v in json.load(open('theorems.json')).values())))")
-cd lean && lake build H2 h2drv $PROPS
+BRIDGES="H2.Gen.Deps H2.Gen.Bridge.Init H2.Gen.Bridge.WindowConsumed H2.Gen.Bridge.WindowOpened H2.Gen.Bridge.MaybeUpdateWindow H2.Gen.Bridge.ProcessBytes H2.Gen.Bridge.ValidateSetting H2.Gen.Bridge.GuardIncrementWindow"
+cd lean && lake build H2 h2drv $PROPS $BRIDGES
